@@ -186,8 +186,12 @@ class PandasMaterializer(FormulaMaterializer):
             return spsparse.hstack([col[1] for col in cols])
         if spec.output == "numpy":
             return numpy.stack([col[1] for col in cols], axis=1)
-        return pandas.DataFrame(
-            {col[0]: col[1] for col in cols},
+        # Key by position rather than by name: column names need not be unique
+        # (e.g. the several zero terms of a differentiated formula).
+        out = pandas.DataFrame(
+            {i: col[1] for i, col in enumerate(cols)},
             index=pandas_index,
             copy=False,
         )
+        out.columns = [col[0] for col in cols]
+        return out
